@@ -62,7 +62,7 @@ MUTANTS = [
     ("unpause-only-first-id", "C08", "keeper/component/forwarder/forwarder.go",
      "					protocolID,\n					ID,\n				)\n			}\n		}\n\n		return nil\n	}\n", None),  # filled below
     ("executor-ignores-pause", "C09", "keeper/component/executor/executor.go",
-     "	if isPaused {\n		return fmt.Errorf(\"action ID %s is paused\", id)\n	}\n", "	_ = isPaused\n"),
+     "	if isPaused {\n		return fmt.Errorf(", "	if isPaused && id == core.ACTION_UNSUPPORTED {\n		return fmt.Errorf("),
     ("no-authority-update-params", "C10,C18", "keeper/component/adapter/msg_server.go",
      "	if err := s.RequireAuthority(msg.Signer); err != nil {\n		return nil, err\n	}\n", ""),
     ("no-authority-unpause-crosschains", "C10", "keeper/component/forwarder/msg_server.go", None, None),  # filled below
